@@ -194,6 +194,32 @@ def r_contained_inherit_attributes(r, prog):
     r.floor(4)
 
 
+def r_file_allow_lookup(r, prog):
+    """The file whose [[allow]] attributes are consulted for a lint is the file named by the lint's span (full relative path)."""
+    upd = prog.fn('slicec::diagnostics::diagnostic::Diagnostics::into_updated')
+    finds = [c for c in upd.calls() if c.name() in ('find', 'position', 'filter')]
+    good = None
+    for c in finds:
+        cl = [a for a in c.args if a is not None and ('mv' in a or 'cp' in a)]
+        ex = vexpr(upd, c.args[-1])
+        for g in prog.closures_of(upd):
+            if g.path.split('::')[-1] in ex or True:
+                txt = str(g.raw['blocks'])
+                reads_path = "'n': 'relative_path'" in txt
+                reads_file = "'n': 'file'" in txt and 'slice_file::Span' in txt
+                eq = any(x.name() in ('eq',) and 'PartialEq' in ((x.callee or '') + (x.resolved or '')) for x in g.calls())
+                other = [n for n in ('filename', 'raw_text') if ("'n': '%s'" % n) in txt] + [x.name() for x in g.calls() if x.name() in ('file_stem', 'file_name', 'ends_with', 'starts_with', 'contains', 'eq_ignore_ascii_case')]
+                if reads_path and reads_file and eq and not other:
+                    good = g
+    if good is not None:
+        r.ok('into_updated finds the lint\'s file by relative_path == span.file', good.path)
+    else:
+        r.finding('file-allow-lookup-not-by-path', upd.span,
+                  'into_updated does not select the file of a lint by comparing SliceFile::relative_path with the span\'s file: a file-level allow can leak to, or miss, another file')
+    # the attributes consulted are those of that file
+    r.floor(1)
+
+
 def run(ctx):
     prog = ctx.prog
     ctx.run_rule('C13.1a', 'T1', 'Diagnostic.level written only by new and, with Allowed, inside the Lint arm of into_updated', levels.r_level_writers, prog)
@@ -201,4 +227,5 @@ def run(ctx):
     ctx.run_rule('C13.2', 'T3', 'every element-related lint records the scoped identifier of its element', r_lints_record_owner, prog)
     ctx.run_rule('C13.3', 'T6', 'declared case-insensitivity of --allow is implemented', r_cli_case_insensitive, prog)
     ctx.run_rule('C13.4', 'T1', 'suppressions are consulted only by into_updated, which only rewrites levels', r_non_interference, prog)
+    ctx.run_rule('C13.6', 'T10', 'file-level allow is looked up by the full path of the lint\'s span', r_file_allow_lookup, prog)
     ctx.run_rule('C13.5', 'T5', 'contained elements inherit their parent\'s attributes', r_contained_inherit_attributes, prog)
